@@ -289,6 +289,14 @@ type Runner struct {
 	aux         bool // current step is auxiliary (not part of the transcript)
 	statsFresh  bool // a write transaction has closed since the last open (DB.Stats is refreshed only then)
 	managed     *managedTx
+	held        []*heldReader
+}
+
+// heldReader is a read transaction kept open across later write transactions of the program.
+type heldReader struct {
+	tx   *bolt.Tx
+	want []string // the committed state when it began
+	id   int
 }
 
 // managedTx is a write transaction run inside DB.Update: the body parks in a goroutine while the
@@ -374,6 +382,13 @@ type FaultOutcome struct {
 // Cleanup releases everything the runner still holds. It must be called in
 // a defer by whoever runs a program.
 func (r *Runner) Cleanup() {
+	for _, h := range r.held {
+		func() {
+			defer func() { _ = recover() }()
+			_ = h.tx.Rollback()
+		}()
+	}
+	r.held = nil
 	if r.managed != nil {
 		m := r.managed
 		r.managed = nil
@@ -665,9 +680,31 @@ func (r *Runner) doStep(st *gen.Step) {
 		}
 		r.quiescent(st.Op)
 		return
+	case "heldBegin":
+		if r.DB == nil || r.Tx != nil {
+			return
+		}
+		tx, err := r.DB.Begin(false)
+		if err != nil {
+			r.fail("begin", "Begin(false) for a held reader: %v", err)
+			return
+		}
+		r.held = append(r.held, &heldReader{tx: tx, want: ModelDump(r.Sim.Committed), id: int(tx.ID())})
+		r.Stats.Transitions["held-reader"]++
+		return
+	case "heldEnd":
+		if len(r.held) == 0 || r.Tx != nil {
+			return
+		}
+		i := st.N % len(r.held)
+		r.endHeld(i)
+		return
 	case "close":
 		if r.DB == nil {
 			return
+		}
+		for len(r.held) > 0 { // Close waits for every read transaction
+			r.endHeld(0)
 		}
 		if r.BeforeClose != nil {
 			r.BeforeClose(r)
@@ -1259,5 +1296,23 @@ func (r *Runner) finishManaged(st *gen.Step) {
 		r.Stats.Rollbacks++
 		r.Stats.Transitions["update-panic"]++
 		r.quiescent("after an Update whose body panicked")
+	}
+}
+
+// endHeld re-reads everything through held reader i (it must still show the state committed when it
+// began, however many write transactions came after), then closes it.
+func (r *Runner) endHeld(i int) {
+	h := r.held[i]
+	r.held = append(r.held[:i:i], r.held[i+1:]...)
+	got, probs := DumpTx(h.tx, r.Mon.DeepDump)
+	r.Stats.DumpChecks++
+	for _, p := range probs {
+		r.fail("read-paths-disagree", "held reader (id %d): %s", h.id, p)
+	}
+	if d := model.DiffDumps(h.want, got); d != "" {
+		r.fail("snapshot", "a read transaction (id %d) held across later write transactions no longer shows the state it began with: %s", h.id, d)
+	}
+	if err := h.tx.Rollback(); err != nil {
+		r.fail("rollback", "held reader Rollback: %v", err)
 	}
 }
